@@ -479,6 +479,17 @@ def check_init(ctx, ci):
         ctx.violation(rule, fi, 'Bits.init', 'no path initialises the shared slot for the first member', fi.node.lineno, clause='f')
 
 
+def _leaves(v):
+    """the alternatives of a selection expression (conditional expressions, literal tables)"""
+    if isinstance(v, ast.IfExp):
+        return _leaves(v.body) + _leaves(v.orelse)
+    if isinstance(v, ast.Subscript) and isinstance(v.value, ast.Dict):
+        return [x for d in v.value.values for x in _leaves(d)]
+    if isinstance(v, ast.Subscript) and isinstance(v.value, (ast.Tuple, ast.List)):
+        return [x for d in v.value.elts for x in _leaves(d)]
+    return [v]
+
+
 def check_bits_strategies(ctx, ci):
     """every surviving path of Bits._compile leaves Bits.pack / Bits.unpack behind .pack / .unpack
     (a fast path that installs another object's codec bypasses the mask / shift arithmetic)"""
@@ -492,6 +503,10 @@ def check_bits_strategies(ctx, ci):
                 if t in seen:
                     continue
                 seen.add(t)
+                leaves = _leaves(e.value)
+                if leaves and all(isinstance(x, ast.Attribute) and isinstance(x.value, ast.Name) and x.value.id == 'self' and ctx.repo.method(ci, x.attr) is not None for x in leaves):
+                    ctx.undecided('R8-confinement', comp, t, 'Bits._compile selects among methods of Bits itself: the analysis of the bit arithmetic reads Bits.pack / Bits.unpack and does not follow this arrangement', e.lineno, clause='d')
+                    continue
                 ctx.violation('R8-confinement', comp, t, 'Bits._compile replaces the bit-field %s by another codec on some path: the value is no longer reduced modulo 2^width into its own slice' % e.name, e.lineno, clause='d')
     if not seen:
         ctx.holds('R8-confinement', comp, 'Bits._compile installs no other pack / unpack', 'every bit field runs Bits.pack / Bits.unpack', comp.node.lineno, clause='d')
